@@ -188,6 +188,23 @@ Theorem C07_insert_preserves_rep : forall H,
 Proof. exact insert_rep. Qed.
 Print Assumptions C07_insert_preserves_rep.
 
+(* Trie.Update with a non-empty value at session level: with the model's own dirty
+   reconstruction and tracer fold, the new session state represents F', the result
+   of running the same insert on the old ground trie F (c06's insert_spec then
+   gives canonicity and the lookup of F') *)
+Theorem C07_update_value_preserves_rep : forall H,
+  (forall x, length (H x) = 32%nat) ->
+  forall S ss F key x v ss',
+    sinv H S ss F -> forallb byteb key = true ->
+    sess_update H PathScheme S ss key (x :: v) = TOk ss' ->
+    exists F' d,
+      rep H (resolve_of H PathScheme S) (dirty_at ss') (delp_of (s_tr ss')) true [] (s_root ss') F' /\
+      forall fu', (length (keybytes_to_hex key) < fu')%nat ->
+        exists ev', insert (resolve_of H PathScheme S) fu' F [] (keybytes_to_hex key) (NValue (x :: v)) =
+                    TOk (d, F', ev').
+Proof. exact sess_insert_rep. Qed.
+Print Assumptions C07_update_value_preserves_rep.
+
 (* the hypotheses are met: a two-generation history over a path-scheme store whose
    second commit returns deletions with previous values, and whose events are
    [consistent] with the stored node positions *)
